@@ -85,6 +85,13 @@ def gen_cases(rng, tier, scale):
         ('{{*nodeco}}', {}, ('err', 'DecoratorNotFound')),
         ('{{#*nodeco}}x{{/nodeco}}', {}, ('err', 'DecoratorNotFound')),
     ]
+    # a later registration of a local helper under the same name replaces the earlier one, in every tag form
+    fixed += [
+        ('{{*sethelper "u" "one"}}{{u}}|{{*sethelper "u" "two"}}{{u}}', {}, 'local(one:)|local(two:)'),
+        ('{{*sethelper "u" "one"}}{{u 1}}|{{*sethelper "u" "two"}}{{u 1}}|{{#u}}b{{/u}}|{{id (u 2)}}', {}, None),
+        ('{{#each l}}{{*sethelper "u" this}}{{u}};{{/each}}', {'l': ['x', 'y', 'z']}, 'local(x:);local(y:);local(z:);'),
+        ('{{*sethelper "u" "one"}}{{#if t}}{{*sethelper "u" "two"}}{{/if}}{{u}}', {'t': True}, 'local(two:)'),
+    ]
     for i, (t, d, exp) in enumerate(fixed):
         cases.append(rcase(f'f{i}', t, d, pre=['probes', 'esc 1'], entry=4, kind='fixed', exp=exp, tags=['decorator']))
     return cases
@@ -124,6 +131,8 @@ def oracle(c, io, mo):
     r = res_of(io)
     if c['kind'] == 'fixed':
         e = c['exp']
+        if e is None:
+            return None
         if isinstance(e, tuple):
             return None if (r['kind'] == 'err' and r['reason'] == e[1]) else f'expected error {e[1]}, got {r}'
         return None if r.get('out') == e else f'expected {e!r}, got {r.get("out", r.get("reason"))!r}'
